@@ -6,6 +6,7 @@
     the reference solution;
 (3) exception oracle, exhaustive over regime in -2..10, phase in -1..3, fabric in -1..7 (direct
     calls) and at Mineral level: ValueError, never numbers, stored history untouched;
+(3b) the same through pydrex.update_all with the rejected mineral at every list position;
 (4) source-free failpoints: a velocity-gradient callable that raises on its k-th call and a
     get_regime callable that switches to an unsupported regime mid-integration: the exception
     propagates and the stored history is bit-identical (same objects, same digests).
@@ -84,6 +85,14 @@ def gen_cases(ctx):
             for phase in range(0, 3):
                 for fabric in range(0, 7):
                     yield {"kind": "mineral_ordinals", "regime": regime, "phase": phase, "fabric": fabric}
+    if ctx.shard == 2 % ctx.nshards:
+        # a rejected mineral inside a bulk update (pydrex.update_all), at every list position, after 0 or 2 good steps
+        bads = ([("phase", v) for v in (2, 3, 9, -1)] + [("regime", v) for v in (2, 3, 5, 9, -1)]
+                + [("fabric", v) for v in ((0, 5), (1, 0), (0, 7), (1, -1))] + [("get_regime", v) for v in (2, 5, 8)])
+        for bad in bads:
+            for pos in range(3):
+                for pre in (0, 2):
+                    yield {"kind": "bulk_failure", "bad": list(bad), "pos": pos, "pre": pre}
     for i in range(ctx.share(ctx.scale(60, 8000))):
         rng = ctx.rng(4, i)
         c = drive.random_history_case(rng)
@@ -103,7 +112,7 @@ VALID = {(0, 0), (0, 1), (0, 2), (0, 3), (0, 4), (1, 5)}
 def check_case(ctx, case):
     pydrex = bootstrap.import_pydrex()
     return {"direct_null": _direct_null, "null_history": _null_history, "ordinals": _ordinals,
-            "mineral_ordinals": _mineral_ordinals, "failpoint": _failpoint}[case["kind"]](ctx, pydrex, case)
+            "mineral_ordinals": _mineral_ordinals, "failpoint": _failpoint, "bulk_failure": _bulk_failure}[case["kind"]](ctx, pydrex, case)
 
 
 def _direct_null(ctx, pydrex, case):
@@ -140,6 +149,9 @@ def _null_history(ctx, pydrex, case):
         F = H.run(m, Lfun=Lfun)
     except Exception as e:
         ctx.case(case, nontrivial=False)
+        if drive.solver_gave_up(case, e):
+            ctx.count("solver_gave_up_under_user_tolerances")
+            return
         ctx.check(f"null_history_completes[{sub}]", False, case, key=f"raises/{type(e).__name__}[{sub}]",
                   exc=f"{type(e).__name__}: {str(e)[:200]}", regime=case["regime"])
         return
@@ -281,6 +293,77 @@ def _history_untouched(ctx, m, before, case):
 
 class _Injected(Exception):
     pass
+
+
+def _digest(m):
+    return ([id(a) for a in m.orientations], [drive.sha(a) for a in m.orientations],
+            [id(a) for a in m.fractions], [drive.sha(a) for a in m.fractions])
+
+
+def _bulk_failure(ctx, pydrex, case):
+    """One mineral of a bulk update is rejected (invalid phase ordinal, unsupported regime, fabric of the other
+    phase, get_regime returning an unsupported regime): update_all must raise instead of returning numbers, the
+    rejected mineral's stored history stays bit-identical, and the other minerals' histories are append-only."""
+    core = pydrex.core
+    P, Fb, R = core.MineralPhase, core.MineralFabric, core.DeformationRegime
+    what, v = case["bad"]
+    good = [pydrex.Mineral(phase=P.olivine, fabric=Fb.olivine_A, regime=R.matrix_dislocation, n_grains=6, seed=5),
+            pydrex.Mineral(phase=P.enstatite, fabric=Fb.enstatite_AB, regime=R.matrix_dislocation, n_grains=6, seed=6)]
+    try:
+        if what == "phase":
+            bad = pydrex.Mineral(phase=v, fabric=Fb.olivine_A, regime=R.matrix_dislocation, n_grains=6, seed=7)
+        elif what == "regime":
+            bad = pydrex.Mineral(phase=P.olivine, fabric=Fb.olivine_B, regime=v, n_grains=6, seed=7)
+        elif what == "fabric":
+            bad = pydrex.Mineral(phase=v[0], fabric=v[1], regime=R.matrix_dislocation, n_grains=6, seed=7)
+        else:
+            bad = pydrex.Mineral(phase=P.olivine, fabric=Fb.olivine_E, regime=R.matrix_dislocation, n_grains=6, seed=7)
+    except Exception:
+        ctx.count("bulk_failure:rejected_at_construction")
+        ctx.case(case, nontrivial=False)
+        return
+    params = gen.params_dict(pydrex, P.olivine)
+    params["phase_assemblage"] = (P.olivine, P.enstatite)
+    params["phase_fractions"] = (0.7, 0.3)
+    L = np.array([[0.0, 2.0, 0], [0, 0, 0.3], [0, 0, 0]])
+    Lfun, pos = (lambda t, x: L), (lambda t: np.zeros(3))
+    F = np.eye(3)
+    t = 0.0
+    with warnings.catch_warnings():
+        warnings.simplefilter("ignore")
+        bad_phase, bad_regime = bad.phase, bad.regime
+        # good steps first (the to-be-rejected mineral takes part with valid settings where that is possible)
+        if what in ("regime", "phase"):
+            bad.regime = R.matrix_dislocation
+            bad.phase = P.olivine
+        if what != "fabric":
+            for _ in range(case["pre"]):
+                F = pydrex.update_all(good + [bad], params, F, Lfun, (t, t + 0.1, pos))
+                t += 0.1
+        bad.phase, bad.regime = bad_phase, bad_regime
+        minerals = list(good)
+        minerals.insert(case["pos"], bad)
+        before = [_digest(m) for m in minerals]
+        get_regime = (lambda t_, x: v) if what == "get_regime" else None
+        try:
+            r = pydrex.update_all(minerals, params, F, Lfun, (t, t + 0.1, pos), get_regime=get_regime)
+            raised = None
+        except Exception as e:
+            raised, r = e, None
+    ctx.case(case)
+    ctx.cls(f"bulk_failure={what}")
+    expect = Exception if what == "phase" else ValueError
+    ctx.check("bulk_update_rejected", isinstance(raised, expect), case, key=f"bulk_update_rejected/{what}",
+              got="returned " + type(r).__name__ if raised is None else f"{type(raised).__name__}: {str(raised)[:120]}")
+    for k, (m, b) in enumerate(zip(minerals, before)):
+        a = _digest(m)
+        nb = len(b[0])
+        if m is bad or what == "get_regime" and raised is not None and k >= 0 and len(a[0]) == nb:
+            ok = a == b
+        else:
+            ok = len(a[0]) in (nb, nb + 1) and len(a[2]) == len(a[0]) and all(x[:nb] == y for x, y in zip(a, b))
+        ctx.check("history_untouched_after_failure", ok, case, key="history_untouched_after_failure/bulk", mineral=k,
+                  rejected=bool(m is bad), n_before=nb, n_after=len(a[0]), nf_after=len(a[2]))
 
 
 def _failpoint(ctx, pydrex, case):
